@@ -710,6 +710,7 @@ func main() {
 	}
 	r.Obs("fault_cases_enumerated", int64(nf))
 	vrun.Parallel(len(cases), 0, func(i int) { analyse(r, runCase(r, cases[i])) })
+	twoKeys(r)
 	r.Require("faulted_runs", 1000)
 	r.Require("fault_kinds", 5)
 	r.Require("recovery_fetches_succeeded", 300)
